@@ -19,6 +19,9 @@ for o in old:
             if m not in c["thorough"]:
                 c["thorough"].append(m)
         c["quick"] = [x for x in c["quick"] if x not in mv]
+    if o["id"] == "C03.fixnum":
+        # [10,0,0] needs ~300 s of solver time; with the old budget of 400 s it was cut short when the machine was overloaded
+        o["max_case_s"] = max(o.get("max_case_s", 0), 900)
 O = []
 ROOT_FILES = ["zz_verif_c02.go"]
 
